@@ -82,9 +82,9 @@ def _mc(ctx):
     with ThreadPoolExecutor(max_workers=6) as ex:
         # contract: the property's clauses are theorems of it, for all interleavings of callers and replacements
         jobs["contract"] = ex.submit(
-            ctx.tlc_mc, "LoadBalance_Gen", contract_cfg("McConfigs", "McInstSets", g2, ["k0", "k1"], 3 if q else 4, 2 if q else 3),
-            label="contract, 2 callers, %d selections" % (3 if q else 4), timeout=1500, workers=w)
-        # implementation-shaped layer refines the contract (repaired weightedRandom; see FixedWR in the module)
+            ctx.tlc_mc, "LoadBalance_Gen", contract_cfg("McConfigs", "McInstSets", g2, ["k0", "k1"], 3 if q else 5, 2),
+            label="contract, 2 callers, %d selections" % (3 if q else 5), timeout=1500, workers=w)
+        # implementation-shaped layer refines the contract
         runs = [("RRConfigs", "McInstSets", g2 if q else g3, ["k0"], 4 if q else 5, 2 if q else 3, 2),
                 ("WRConfigs", "McInstSets", g2, ["k0"], 3 if q else 4, 2, 2),
                 ("HashConfigs", "McInstSets", g2, ["k0", "k1"], 3 if q else 4, 2, 2 if q else 3)]
@@ -95,7 +95,7 @@ def _mc(ctx):
         jobs["neg-rr"] = ex.submit(ctx.tlc_mc, "LoadBalanceImpl_MC", impl_cfg("RRConfigs", "McInstSets", g2, ["k0"], 3, 2, atomic=False),
                                    label="negative control: non-atomic counter", expect_ok=False, count=False, workers=2)
         jobs["pinned-wr"] = ex.submit(ctx.tlc_mc, "LoadBalanceImpl_MC", impl_cfg("WRConfigs", "McInstSets", g2, ["k0"], 3, 2, fixed=False),
-                                      label="pinned weightedRandom (rand.Intn(totalWeight)) over accepted pools", expect_ok=False,
+                                      label="negative control: weightedRandom without the zero-total-weight guard", expect_ok=False,
                                       count=False, workers=2)
         res = {k: f.result() for k, f in jobs.items()}
     for k in ("contract", "RRConfigs", "WRConfigs", "HashConfigs"):
@@ -104,11 +104,8 @@ def _mc(ctx):
     if r.violated not in ("RRFair", "Refines"):
         ctx.inconclusive("negative control (non-atomic round robin counter) was not rejected by TLC: %s" % r.error)
     r = res["pinned-wr"]
-    if r.violated in ("NoPanic", "Refines"):
-        ctx.notes.append("model level: the pinned weightedRandom code violates NoPanic for an accepted pool whose total weight is 0 "
-                         "(TLC counterexample); the real code is exercised on such pools by the replay")
-    elif not r.ok:
-        ctx.inconclusive("unexpected TLC result on the pinned weightedRandom model: %s" % r.error)
+    if r.violated not in ("NoPanic", "Refines"):
+        ctx.inconclusive("negative control (weightedRandom without the zero-total-weight guard) was not rejected by TLC: %s" % r.error)
 
 
 # ------------------------------------------------------------------------------------------
